@@ -23,8 +23,10 @@ def extra_kinds():
 def correspondence(payload):
     n_values = 12 if payload["tier"] == "quick" else 40
     preds = g.grid_true(payload["tier"])
+    if payload["tier"] == "quick":
+        preds = preds[int(payload["seed"]) % 2::2]       # half of the grid per run, alternating with the seed
     fp = g_fingerprint()
-    desc, mism = g.run_replay("c09", MODE, preds, n_values, int(payload["seed"]) + 1)
+    desc, mism = g.run_replay("c09", MODE, preds, n_values, int(payload["seed"]) + 1, max_draws=(1500 if payload["tier"] == "quick" else None))
     if payload["tier"] == "thorough":
         for s in (2, 3):
             d2, m2 = g.run_replay("c09", MODE, preds, n_values, int(payload["seed"]) + 10 * s)
@@ -73,7 +75,7 @@ def search(payload):
                 k, r = call(p, v)
                 if k != "ok" or not r:
                     rec = {"p": repr(p), "position": i, "value": repr(v), "p(value)": (repr(r) if k == "ok" else f"raises {r}")}
-                    if isinstance(p, PP.OrPredicate) and k == "raise":
+                    if k == "raise" and any(isinstance(t, PP.OrPredicate) for t in g.subterms(p)):
                         known_hits.append({"id": 13, "p": repr(p)})
                     else:
                         fails.append(rec)
